@@ -382,6 +382,11 @@ func GenFile(r *gen.R, o GenOpts) *File {
 		b := &Block{Zlib: r.Chance(0.7), OrderSeed: r.Uint64()}
 		if b.Zlib {
 			b.ZlibLevel = r.Pick(1, 6, 9)
+			if !o.Plain && r.Chance(0.25) {
+				b.ZlibLevel = r.Pick(-1, -2) // stored blocks, Huffman-only
+			}
+		} else if !o.Plain && r.Chance(0.3) {
+			b.ZlibLevel = -1 // raw blob that also states its raw_size
 		}
 		if !o.Plain {
 			b.UnknownFields = r.Chance(0.2)
